@@ -211,9 +211,10 @@ func (p *asciiProver) guardedWhole(fn *ssa.Function, param *ssa.Parameter, at ss
 		return false
 	}
 	pn := fmt.Sprintf("p%d", pi)
-	for _, l := range rangeLoopsAll(b) {
+	loopOK := func(b2 *ana.Builder, lp *rangeLoop) bool {
+		l := *lp
 		if l.Coll.String() != pn {
-			continue
+			return false
 		}
 		// predicates that imply ASCII for the element
 		var pats []string
@@ -221,26 +222,20 @@ func (p *asciiProver) guardedWhole(fn *ssa.Function, param *ssa.Parameter, at ss
 			"bin<<>(index("+pn+", ind<+1>(0)), 128)", "bin<<=>(index("+pn+", ind<+1>(0)), 127)",
 			"bin<<>(index("+pn+", bin<+>(ind<+1>(-1), 1)), 128)",
 			"bin<<>(ext#2(next(range("+pn+"))), 128)", "bin<<=>(ext#2(next(range("+pn+"))), 127)")
-		ok := forAll(b, l, pats...)
+		ok := forAll(b2, l, pats...)
 		if !ok {
 			// helper predicate on the rune
-			for _, ce := range b.CondEdges() {
-				if bd, m := ana.Match("call<*>(ext#2(next(range("+pn+"))))", ce.Lit); m {
-					_ = bd
+			for _, ce := range b2.CondEdges() {
+				if _, m := ana.Match("call<*>(ext#2(next(range("+pn+"))))", ce.Lit); m {
 					if h := calleeOf(ce.Lit); h != nil && runeHelperASCII(p.c, h) {
-						ok = forAll(b, l, ce.Lit.String())
+						ok = forAll(b2, l, ce.Lit.String())
 					}
 				}
 			}
 		}
-		if !ok {
-			continue
-		}
-		if mustPass(fn, at.Block(), []ana.Edge{{From: l.Header, To: l.Exit}}) {
-			return true
-		}
+		return ok
 	}
-	return false
+	return mustPass(fn, at.Block(), scanGates(p.c, b, loopOK))
 }
 
 // rangeLoopsAll = rangeLoops plus counted loops `for i := 0; i < len(c); i++`.
